@@ -140,6 +140,8 @@ func (q *Queue) Add(elem *queue.Elem) (err error) {
 	var dropBytes []byte
 	var dropElem *queue.Elem
 	var drop bool
+	// dropBeforeCursor tells whether the dropped inflight element lies before the read cursor
+	var dropBeforeCursor bool
 	defer func() {
 		conn.Close()
 		q.cond.L.Unlock()
@@ -150,7 +152,9 @@ func (q *Queue) Add(elem *queue.Elem) (err error) {
 		if drop {
 			if dropErr == queue.ErrDropExpiredInflight {
 				q.notifier.NotifyInflightAdded(-1)
-				q.current--
+				if dropBeforeCursor {
+					q.current--
+				}
 			}
 			if dropBytes == nil {
 				q.notifier.NotifyDropped(elem, dropErr)
@@ -171,7 +175,6 @@ func (q *Queue) Add(elem *queue.Elem) (err error) {
 		dropErr = queue.ErrDropQueueFull
 		drop = true
 		var rs []interface{}
-		// drop expired inflight message
 		rs, err = redigo.Values(conn.Do("lrange", getKey(q.clientID), 0, q.len))
 		if err != nil {
 			return
@@ -185,54 +188,48 @@ func (q *Queue) Add(elem *queue.Elem) (err error) {
 			if err != nil {
 				return
 			}
-			// inflight message
-			if i < q.current && queue.ElemExpiry(now, e) {
-				dropBytes = b
-				dropElem = e
-				dropErr = queue.ErrDropExpiredInflight
-				return
-			}
-			// non-inflight message
-			if i >= q.current {
-				if i == q.current {
-					frontBytes = b
-					frontElem = e
-				}
-				// drop qos0 message in the queue
-				pub := e.MessageWithID.(*queue.Publish)
-				// drop expired non-inflight message
-				if pub.ID() == 0 && queue.ElemExpiry(now, e) {
+			// An element that has been handed out has a packet id (QoS 0 messages are removed when
+			// read), whether or not the read cursor has passed it yet (after Init it starts at 0 again).
+			if e.ID() != 0 {
+				// 1. drop the first expired inflight message
+				if queue.ElemExpiry(now, e) {
 					dropBytes = b
 					dropElem = e
-					dropErr = queue.ErrDropExpired
+					dropErr = queue.ErrDropExpiredInflight
+					dropBeforeCursor = i < q.current
 					return
 				}
-				if pub.ID() == 0 && pub.QoS == packets.Qos0 && dropElem == nil {
-					dropBytes = b
-					dropElem = e
-				}
+				continue
 			}
-		}
-		// drop the current elem if there is no more non-inflight messages.
-		if q.inflightDrained && q.current >= q.len {
-			return
-		}
-		rs, err = redigo.Values(conn.Do("lrange", getKey(q.clientID), q.current, q.len))
-		if err != nil {
-			return err
+			// non-inflight message
+			pub := e.MessageWithID.(*queue.Publish)
+			if frontElem == nil {
+				frontBytes = b
+				frontElem = e
+			}
+			// 3. drop expired non-inflight message
+			if queue.ElemExpiry(now, e) {
+				dropBytes = b
+				dropElem = e
+				dropErr = queue.ErrDropExpired
+				return
+			}
+			// 4. drop qos0 message in the queue
+			if pub.QoS == packets.Qos0 && dropElem == nil {
+				dropBytes = b
+				dropElem = e
+			}
 		}
 		if dropElem != nil {
 			return
 		}
-		if elem.MessageWithID.(*queue.Publish).QoS == packets.Qos0 {
+		// 2. drop the current elem if there is no more non-inflight messages, or if it is a qos0 message
+		if frontElem == nil || elem.MessageWithID.(*queue.Publish).QoS == packets.Qos0 {
 			return
 		}
-		if frontElem != nil {
-			// drop the front message
-			dropBytes = frontBytes
-			dropElem = frontElem
-		}
-		// the the messages in the queue are all inflight messages, drop the current elem
+		// 5. drop the front message
+		dropBytes = frontBytes
+		dropElem = frontElem
 		return
 	}
 	return nil
